@@ -527,6 +527,7 @@ class Interp:
                     if m:
                         self.closures[m.group(0)] = b
         self._resolve_cache = {}
+        self.self_stack = []
         self._span_cache = {}
         from . import models
         self.models = models.Models(self)
@@ -710,6 +711,8 @@ class Interp:
             return bytes(text[1:-1], 'utf-8').decode('unicode_escape') if '\\' in text else text[1:-1]
         if text.startswith('b"'):
             return Opaque('bytes', text)
+        if text in ('anyhow::kind::Trait', 'anyhow::kind::Adhoc', 'anyhow::kind::Boxed'):
+            return Opaque('anyhow_kind')
         if text == 'log::STATIC_MAX_LEVEL':
             return Enum('LevelFilter', 5, 'Trace', [])
         if text.startswith('std::iter::Empty::<'):
@@ -1093,6 +1096,13 @@ class Interp:
     def call(self, callee, argv, caller=None, loc=None):
         target = self.resolve(callee, argv, caller)
         if target[0] == 'body':
+            if len(target) > 2:
+                # provided trait method: remember what `Self` is while its generic body runs
+                self.self_stack.append(target[2])
+                try:
+                    return self.run_body(target[1], argv)
+                finally:
+                    self.self_stack.pop()
             return self.run_body(target[1], argv)
         # library model
         return self.models.call(target[1], callee, argv, caller)
